@@ -369,7 +369,7 @@ pub fn run(run: &Run, replay: Option<&Value>) {
         AnyCase::C03(c03::Case { def: Def::full(), alg: "es256".into(), ..c03::Case::base("jpeg") }),
         AnyCase::C03(c03::Case { alg: "ps256".into(), mode: "sidecar".into(), ver: 1, ..c03::Case::base("png") }),
         AnyCase::C15(c15::Case { real: true, fmt: "jpeg".into(), n: 1, co: 0, cl: 9, reserve_extra: 0, rich: true, alg: "ed25519".into(), pure: false, legacy: false, widths: vec![] }),
-        AnyCase::C39(c39::Case { seed: "png".into(), state: "tampered".into(), rel: "componentOf".into(), mode: "chain2".into(), parent: "jpeg".into() }),
+        AnyCase::C39(c39::Case { seed: "png".into(), state: "tampered".into(), rel: "componentOf".into(), mode: "chain2".into(), parent: "jpeg".into(), def: "minimal".into() }),
     ];
     for p in &probes {
         let (x, y) = (p.flow(&seeds, Flavor::Sync), p.flow(&seeds, Flavor::Sync));
@@ -427,7 +427,7 @@ pub fn run(run: &Run, replay: Option<&Value>) {
     run.space("C15 quick enumeration (real cases; sized exclusion lists, quick tier: default reserve and simple definition only) through data_hashed_placeholder + sign_data_hashed_embeddable(_async)", n15 as u64, true);
     let mut n39 = 0usize;
     for s in &seeds { for st in c39::STATES { for rel in c39::RELS { for mode in c39::MODES {
-        cases.push(AnyCase::C39(c39::Case { seed: s.name.clone(), state: st.into(), rel: rel.into(), mode: mode.into(), parent: "jpeg".into() })); n39 += 1;
+        cases.push(AnyCase::C39(c39::Case { seed: s.name.clone(), state: st.into(), rel: rel.into(), mode: mode.into(), parent: "jpeg".into(), def: "minimal".into() })); n39 += 1;
     }}}}
     run.space("C39 quick enumeration: seed asset(13) x state(3) x relationship(3) x mode(3)", n39 as u64, true);
     if std::env::var("VERIF_DEBUG").is_ok() {
